@@ -897,6 +897,8 @@ def run(tier):
               'arity errors of user functions and input keys missing from the record (run-time data errors, not key-combination errors)',
               *[f'PENDING decision, obligations generated but not run: {t}: {d}' for t, d in PENDING_TAGS.items() if t not in pending])
   rep.assume('absl logging and time.time in transform.py/iter_utils.py/tree_fns.py replaced by no-ops in symbolic runs',
+             'the harness sink (MemSink) tells CrossHair not to deep-realize it when TreeFn._maybe_call_fn formats the sink object into an error '
+             'message (__ch_deep_realize__ returns self); only the message text is affected',
              'user functions are pure integer lambdas of the harness; the reference interpreter calls the same lambdas',
              'CrossHair/z3 sound for int/bool/dict/list/tuple/generator semantics; object identity (`is`) of containers and of symbolic int proxies is the interpreter\'s')
   only = os.environ.get('VF_ONLY')
